@@ -94,7 +94,59 @@ def dev(name, multi=False, cap=0, ctr=0):
     return {"name": name, "multi": multi, "cap": cap, "ctr": ctr}
 
 
+def explore_nodelocal(rng, name="dn"):
+    """The common node-local layout: an existing initialized node publishes a NODE-NAME-PINNED pool whose devices are partitions of one
+    physical device - a shared (multi-allocatable) device and exclusive partitions that all consume the pool's counter -, part of it
+    already allocated to claims of running pods (a share of the shared device and/or an exclusive partition); new pods ask for further
+    partitions / shares of the same pool, which fit the counter only if what the pre-allocated devices consume is ignored."""
+    t = itype("t0", rng.choice([4000, 8000]), ("a", "b"))
+    types = [t] + ([itype("t1", 8000, ("a",))] if rng.random() < 0.3 else [])
+    node = {"name": "n0", "stage": "initialized", "pool": "p0", "labels": {"zone": "a", "ct": "od", "it": "t0", "arch": "amd64", "os": "linux", "pool": "p0"},
+            "taints": [], "startup": [], "ephemeral": False, "alloc": {"cpu": t["cpu"], "mem": t["mem"], "pods": 110},
+            "cap": {"cpu": t["cpu"], "mem": t["mem"], "pods": 110}, "marked": False, "deleting": False, "csi": []}
+    shared_ctr, part_ctr = rng.choice([2, 3, 4]), rng.choice([2, 3, 4, 6])
+    nparts = rng.choice([1, 2, 2, 3])
+    devs = [dev("sh0", True, rng.choice([6, 8]), shared_ctr)] + [dev("g%d" % i, False, 0, part_ctr) for i in range(nparts)]
+    slots = rng.choice([part_ctr, shared_ctr + part_ctr - 1, shared_ctr + part_ctr, shared_ctr + 2 * part_ctr - 1, shared_ctr + nparts * part_ctr])
+    access = rng.choice(["node", "node", "node", "zone"])
+    slices = [{"name": "s-n0", "driver": "gpu", "pool": "n0-g", "access": access, "zone": "a" if access == "zone" else "", "node": "n0" if access == "node" else "",
+               "devices": devs, "slots": 0},
+              {"name": "s-n0-ctr", "driver": "gpu", "pool": "n0-g", "access": access, "zone": "a" if access == "zone" else "", "node": "n0" if access == "node" else "",
+               "devices": [], "slots": slots}]
+    templates = []
+    if rng.random() < 0.4:
+        templates.append({"type": "t0", "driver": "gpu", "pool": "g", "devices": [dev("tg0")], "slots": 0})
+    claims, pcl, pods = [], [], []
+    r = rng.random()
+    pre = []
+    if r < 0.7:         # a running pod holds a share of the shared device
+        pre.append(("pc-sh", "shm2", {"driver": "gpu", "pool": "n0-g", "device": "sh0", "consumed": rng.choice([2, 3, 4])}))
+    if r > 0.55 and nparts > 1:     # ... and/or an exclusive partition
+        pre.append(("pc-g", "gpu", {"driver": "gpu", "pool": "n0-g", "device": "g%d" % (nparts - 1), "consumed": 0}))
+    for i, (cn, kind, res) in enumerate(pre):
+        bp = sc.plain_pod("b%d" % i, 300, 128)
+        bp["node"], bp["owner"], bp["tol"] = "n0", "rs", [dict(sc.TOL_ALL)]
+        pods.append(bp)
+        c = claim(cn, kind, [res], [bp["name"]])
+        c["class"] = "gpu"
+        claims.append(c)
+        pcl.append({"pod": "default/" + bp["name"], "claims": [cn]})
+    for i in range(rng.choice([1, 2, 2, 3])):
+        p = sc.plain_pod("w%d" % i, rng.choice([300, 500, 900]), 128)
+        kind = rng.choice(["gpu", "gpu", "gpu", "gpu2", "shm2", "shm3"])
+        c = claim("c%d" % i, kind)
+        c["class"] = "gpu"      # the node-local pool's driver: partitions (no capacity request) or a share of the shared device
+        claims.append(c)
+        pods.append(p)
+        pcl.append({"pod": "default/" + p["name"], "claims": [c["name"]]})
+    d = {"classes": classes({"gpu"}), "slices": slices, "templates": templates, "claims": claims, "podClaims": pcl}
+    return {"name": name, "options": dict(OPTS, workers=rng.choice([1, 2, 8])), "types": types, "pools": [pool("p0", 10)], "nodes": [node], "ds": [],
+            "scs": [], "pvs": [], "pvcs": [], "pods": pods, "dra": d}
+
+
 def explore_dra(rng, name="d"):
+    if rng.random() < 0.25:
+        return explore_nodelocal(rng, name)
     ntypes = rng.choice([1, 2, 2, 3])
     cpus = rng.sample([2000, 4000, 8000], ntypes)
     types = [itype("t%d" % i, cpus[i], rng.choice([("a", "b"), ("a",), ("a", "b", "c")])) for i in range(ntypes)]
